@@ -39,6 +39,14 @@ struct Sys {
     blocks: u32,
     /// what is needed to disconnect the connected blocks again, newest last
     undo: Vec<(lightning_signer::txoo::proof::TxoProof, lightning_signer::chain::tracker::Headers)>,
+    /// one case in three runs on the transactional store of a daemon that keeps its state in the
+    /// cloud: every request (sometimes two or three) inside enter() .. prepare() .. commit()
+    in_txn: bool,
+    txn_ops: u32,
+    txn_all_refused: bool,
+    txn_before_local: Vec<(String, (u64, Vec<u8>))>,
+    n_txn: u64,
+    n_txn_multi: u64,
 }
 
 impl Sys {
@@ -64,15 +72,24 @@ impl Sys {
             policy.max_invoices = 4; // Model.NodeOps.MAX_INV: the approvals table fills up
             World::new(policy, seed, KeyDerivationStyle::Native)
         };
+        let mut world = world;
+        if case % 3 == 2 {
+            world.cloud = Some(cloud_from(&[]));
+        }
         let node = world.new_node();
         let node_id = node.get_id();
         let secp = Secp256k1::new();
         let peer = PublicKey::from_secret_key(&secp, &SecretKey::from_slice(&[9u8; 32]).unwrap()).serialize();
-        let mut sys = Sys { world, node, node_id, peer, testnet, blocks: 0, undo: vec![] };
+        let mut sys = Sys {
+            world, node, node_id, peer, testnet, blocks: 0, undo: vec![],
+            in_txn: false, txn_ops: 0, txn_all_refused: true, txn_before_local: vec![], n_txn: 0, n_txn_multi: 0,
+        };
         if testnet {
             // a fresh tracker (height 0) is moved to the checkpoint by a restart, by design: the
             // history starts after the first block
+            sys.txn_begin();
             sys.add_block();
+            let _ = sys.txn_end("the first block");
         }
         sys
     }
@@ -83,7 +100,7 @@ impl Sys {
         let prev = tracker.tip().clone();
         let (header, proof) = make_testnet_header(tracker.tip(), tracker.height());
         let ok = tracker.add_block(header, proof.clone()).is_ok();
-        self.world.persister.update_tracker(&self.node_id, &tracker).expect("update_tracker");
+        self.world.dyn_persister().update_tracker(&self.node_id, &tracker).expect("update_tracker");
         self.blocks += 1;
         if ok {
             self.undo.push((proof, prev));
@@ -98,9 +115,114 @@ impl Sys {
         };
         let mut tracker = self.node.get_tracker();
         let ok = tracker.remove_block(proof, prev).is_ok();
-        self.world.persister.update_tracker(&self.node_id, &tracker).expect("update_tracker");
+        self.world.dyn_persister().update_tracker(&self.node_id, &tracker).expect("update_tracker");
         ok
     }
+    fn txn_begin(&mut self) {
+        if let Some(c) = self.world.cloud.clone() {
+            if !self.in_txn {
+                self.txn_before_local = raw_dump(&c);
+                let p: Arc<dyn Persist> = c;
+                p.enter().expect("enter");
+                self.in_txn = true;
+                self.txn_ops = 0;
+                self.txn_all_refused = true;
+            }
+        }
+    }
+
+    /// the end of a transaction as the daemon runs it: prepare(), the reported records go to the
+    /// cloud, commit().  Returns what C10 / C11 find wrong at the crash points around it.
+    fn txn_end(&mut self, what: &str) -> (Vec<String>, Vec<String>) {
+        use lightning_signer::persist::Mutations;
+        let (mut c10, mut c11) = (vec![], vec![]);
+        let c = match self.world.cloud.clone() {
+            Some(c) if self.in_txn => c,
+            _ => return (c10, c11),
+        };
+        let p: Arc<dyn Persist> = c.clone();
+        let muts = p.prepare();
+        self.n_txn += 1;
+        if self.txn_ops > 1 {
+            self.n_txn_multi += 1;
+        }
+        if self.txn_all_refused && !muts.is_empty() {
+            let keys: Vec<String> = muts.clone().into_iter().map(|(k, _)| k).collect();
+            c10.push(format!("the transactional store ends the refused {} with pending mutations: {}", what, keys.join(", ")));
+        }
+        for b in replica_apply(&mut self.world.replica.lock().unwrap(), &muts) {
+            c11.push(format!("after {}: the cloud refuses what prepare() reported: {}", what, b));
+        }
+        let cloud_all: Vec<(String, (u64, Vec<u8>))> = self.world.replica.lock().unwrap().iter().map(|(k, v)| (k.clone(), v.clone())).collect();
+        let running = fingerprint(&self.node);
+        let world = &self.world;
+        let node_id = self.node_id;
+        let from = |local: &[(String, (u64, Vec<u8>))], sync: bool| -> Result<Vec<String>, ()> {
+            catch_unwind(AssertUnwindSafe(|| {
+                let copy = cloud_from(local);
+                if sync {
+                    let cp: Arc<dyn Persist> = copy.clone();
+                    if cp.put_batch_unlogged(Mutations::from_vec(cloud_all.clone())).is_err() {
+                        return vec!["start-up cannot bring the local store up to date from the cloud (put_batch_unlogged refused)".to_string()];
+                    }
+                }
+                let (shadow, _) = world.restore_on_cloud(&copy, &node_id);
+                fingerprint_diff(&running, &fingerprint(&shadow))
+            }))
+            .map_err(|_| ())
+        };
+        // a crash after the cloud took the records and before commit(): the local store is the
+        // old one; start-up brings it up to date from the cloud
+        match from(&self.txn_before_local, true) {
+            Ok(d) if d.is_empty() => {}
+            Ok(d) => c11.push(format!("after {}: a signer restarted between prepare and commit (old local store brought up to date from the cloud) would differ: {}", what, d.join("; "))),
+            Err(()) => c11.push(format!("after {}: a signer crashed between prepare and commit cannot be restored (restore panics)", what)),
+        }
+        p.commit().expect("commit");
+        self.in_txn = false;
+        let local = raw_dump(&c);
+        if local != cloud_all {
+            let lm: Replica = local.iter().cloned().collect();
+            let cm: Replica = cloud_all.iter().cloned().collect();
+            let mut keys: Vec<&String> = lm.keys().chain(cm.keys()).collect();
+            keys.sort();
+            keys.dedup();
+            let d: Vec<String> = keys
+                .into_iter()
+                .filter(|k| lm.get(*k) != cm.get(*k))
+                .map(|k| format!("{} (local version {:?}, cloud version {:?})", k, lm.get(k).map(|x| x.0), cm.get(k).map(|x| x.0)))
+                .collect();
+            c11.push(format!("after {}: the committed local store differs from what was reported to the cloud: {}", what, d.join(", ")));
+        }
+        match from(&local, false) {
+            Ok(d) if d.is_empty() => {}
+            Ok(d) => c11.push(format!("after {}: a restart from the local store would differ: {}", what, d.join("; "))),
+            Err(()) => c11.push(format!("after {}: the signer cannot be restored from its local store (restore panics)", what)),
+        }
+        // another host, recovering from the cloud copy alone
+        match from(&[], true) {
+            Ok(d) if d.is_empty() => {}
+            Ok(d) => c11.push(format!("after {}: a signer recovered from the cloud copy alone would differ: {}", what, d.join("; "))),
+            Err(()) => c11.push(format!("after {}: the signer cannot be recovered from the cloud copy (restore panics)", what)),
+        }
+        (c10, c11)
+    }
+
+    /// a restart of the daemon on the transactional store: same disk, brought up to date from
+    /// the cloud, then restored inside the start-up transaction
+    fn cloud_restart(&mut self) -> Arc<Node> {
+        use lightning_signer::persist::Mutations;
+        let c = self.world.cloud.clone().expect("cloud");
+        let copy = cloud_from(&raw_dump(&c));
+        let cloud_all: Vec<(String, (u64, Vec<u8>))> = self.world.replica.lock().unwrap().iter().map(|(k, v)| (k.clone(), v.clone())).collect();
+        let cp: Arc<dyn Persist> = copy.clone();
+        cp.put_batch_unlogged(Mutations::from_vec(cloud_all)).expect("put_batch_unlogged");
+        let (node, muts) = self.world.restore_on_cloud(&copy, &self.node_id);
+        replica_apply(&mut self.world.replica.lock().unwrap(), &muts);
+        self.world.cloud = Some(copy);
+        node
+    }
+
     fn cid(&self, dbid: u64) -> ChannelId {
         ChannelId::new_from_peer_id_and_oid(&self.peer, dbid)
     }
@@ -133,10 +255,13 @@ fn observe(sys: &Sys) -> String {
 }
 
 fn run(args: &Args) {
-    std::panic::set_hook(Box::new(|_| {}));
+    if std::env::var("VERIF_SHOW_PANICS").is_err() {
+        std::panic::set_hook(Box::new(|_| {}));
+    }
     let mut rng = Rng::new(args.seed ^ 0x0de0);
     let mut n_c10 = 0u64;
     let mut n_c11 = 0u64;
+    let (mut n_cloud, mut n_txn, mut n_txn_multi) = (0u64, 0u64, 0u64);
     let mut kinds: std::collections::BTreeMap<String, (u64, u64)> = Default::default();
     let max_len = if args.tier == "thorough" { 40 } else { 24 };
     for case in 0..args.n {
@@ -151,11 +276,15 @@ fn run(args: &Args) {
         for _ in 0..len {
             let dbid = 1 + rng.below(4);
             let before_fp = fingerprint_full(&sys.node);
-            let before_store = store_dump(&sys.world.persister);
+            // on the transactional store: a transaction left open by the previous request goes on
+            let joined = sys.in_txn;
+            sys.txn_begin();
+            let before_store = sys.world.dump();
             let node = sys.node.clone();
             let cid = sys.cid(dbid);
             let peer = sys.peer;
-            let mut choice = rng.below(20);
+            // (no restart in the middle of a transaction)
+            let mut choice = rng.below(if joined { 18 } else { 20 });
             if sys.testnet && (11..=14).contains(&choice) {
                 // regtest addresses do not parse on Testnet: these draws connect a block instead
                 // (at most three: stubs are pruned six blocks after their creation)
@@ -317,7 +446,15 @@ fn run(args: &Args) {
                     (format!("ChannelRequest {}", dbid), json!(["channel_request", dbid]), r.map_err(|_| ()))
                 }
                 _ => {
-                    match catch_unwind(AssertUnwindSafe(|| sys.world.restart(&sys.node_id))) {
+                    if sys.world.cloud.is_some() {
+                        // the restart request itself is outside any transaction
+                        let p = sys.world.dyn_persister();
+                        let _ = p.prepare();
+                        p.commit().expect("commit");
+                        sys.in_txn = false;
+                    }
+                    let cloud = sys.world.cloud.is_some();
+                    match catch_unwind(AssertUnwindSafe(|| if cloud { sys.cloud_restart() } else { sys.world.restart(&sys.node_id) })) {
                         Ok(n) => {
                             sys.node = n;
                             // what the restored tracker holds decides which blocks can still be disconnected
@@ -353,13 +490,24 @@ fn run(args: &Args) {
             // ---- C10
             if !ok && !restarted {
                 let mut d = fingerprint_diff(&before_fp, &fingerprint_full(&sys.node));
-                d.extend(store_diff(&before_store, &store_dump(&sys.world.persister)));
+                d.extend(store_diff(&before_store, &sys.world.dump()));
                 if !d.is_empty() {
                     c10.push(format!("refused {} changed: {}", coq, d.join("; ")));
                 }
             }
+            // ---- the transactional store: end of the transaction, with the crash points around it
+            if sys.in_txn {
+                sys.txn_ops += 1;
+                sys.txn_all_refused &= !ok;
+                if !(sys.txn_ops < 3 && rng.chance(1, 4)) {
+                    let what = if sys.txn_ops == 1 { format!("{} ({})", coq, if ok { "Ok" } else { "Err" }) } else { format!("a transaction of {} requests ending with {}", sys.txn_ops, coq) };
+                    let (a, b) = sys.txn_end(&what);
+                    c10.extend(a);
+                    c11.extend(b);
+                }
+            }
             // ---- C11
-            {
+            if sys.world.cloud.is_none() {
                 let node_now = sys.node.clone();
                 match catch_unwind(AssertUnwindSafe(|| {
                     let shadow = sys.world.restart(&sys.node_id);
@@ -377,6 +525,16 @@ fn run(args: &Args) {
             obs.push(format!("({}, {})", coq_bool(ok), observe(&sys)));
             jops.push(json!({"op": j, "st": if ok { "Ok" } else { "Refused" }}));
         }
+        if sys.in_txn {
+            let (a, b) = sys.txn_end("the last transaction of the history");
+            c10.extend(a);
+            c11.extend(b);
+        }
+        if sys.world.cloud.is_some() {
+            n_cloud += 1;
+            n_txn += sys.n_txn;
+            n_txn_multi += sys.n_txn_multi;
+        }
         n_c10 += c10.len() as u64;
         n_c11 += c11.len() as u64;
         let coq = format!("({}, {})", coq_list(&ops), coq_list(&obs));
@@ -384,7 +542,8 @@ fn run(args: &Args) {
     }
     let kj: serde_json::Map<String, serde_json::Value> =
         kinds.into_iter().map(|(k, (a, b))| (k, json!({"ok": a, "refused": b}))).collect();
-    emit("STATS", json!({"kind": "nodeops", "ops": kj, "c10_violations": n_c10, "c11_violations": n_c11}));
+    emit("STATS", json!({"kind": "nodeops", "ops": kj, "c10_violations": n_c10, "c11_violations": n_c11,
+        "cases_on_transactional_store": n_cloud, "transactions": n_txn, "transactions_of_several_requests": n_txn_multi}));
 }
 
 fn main() {
